@@ -218,14 +218,14 @@ func (f *frame) store(x *ssa.Store) {
 	}
 	val := f.get(x.Val)
 	if val.loc != nil {
-		bail("store of address value in %s", f.fn.Name())
+		val = SV{t: val.t, term: f.scalar(x.Val)}
 	}
 	if _, ok := x.Val.Type().Underlying().(*types.Pointer); ok {
 		if l.kind != locCell || !strings.HasPrefix(l.base, "(- ") {
 			f.enc.escaped = true
 		}
 	}
-	if !f.isLocalBase(l) {
+	if _, fresh := addrRoot(x.Addr).(*ssa.Alloc); !fresh && !f.isLocalBase(l) {
 		f.wrote("store " + f.enc.srcText(f.fn, x.Pos(), "star"))
 	}
 	f.storeLoc(l, val.term, f.curHeap)
@@ -275,7 +275,14 @@ func (f *frame) unop(x *ssa.UnOp) {
 }
 
 func (f *frame) binop(x *ssa.BinOp) {
-	term := f.enc.binopTerm(f, x.Op, f.get(x.X), f.get(x.Y), x.X.Type(), x.Y.Type(), x.Pos())
+	a, b := f.get(x.X), f.get(x.Y)
+	if a.loc != nil {
+		a = SV{t: a.t, term: f.scalar(x.X)}
+	}
+	if b.loc != nil {
+		b = SV{t: b.t, term: f.scalar(x.Y)}
+	}
+	term := f.enc.binopTerm(f, x.Op, a, b, x.X.Type(), x.Y.Type(), x.Pos())
 	f.defineVal(x, term)
 }
 
@@ -456,6 +463,9 @@ func (f *frame) fieldAddr(x *ssa.FieldAddr) {
 		case locCell:
 			// address-taken local struct: treat the cell ref as a struct ref
 			f.vals[x] = SV{t: x.Type(), loc: &Loc{kind: locField, base: l.base, owner: owner, path: []int{x.Field}, elemT: ft}}
+			return
+		case locGlobal:
+			f.vals[x] = SV{t: x.Type(), loc: &Loc{kind: locField, base: f.enc.globalAddr(l.global), owner: owner, path: []int{x.Field}, elemT: ft}}
 			return
 		}
 		bail("field address of element/global address in %s", f.fn.Name())
